@@ -81,7 +81,7 @@ Definition normalize (mask : N) (u : uri) : uri :=
     let u := if bit mask M_USER_INFO then set_userInfo (omap fix_pct (userInfo u)) u else u in
     let u :=
       if bit mask M_PATH then
-        let relative := negb (is_some (scheme u)) && negb (absolutePath u) in
+        let relative := negb (is_some (scheme u)) && negb (absolutePath u) && negb (is_host_set u) in
         let u := set_pathSegs (map fix_pct (pathSegs u)) u in
         fix_empty_trail_segment (remove_dot_segments relative u)
       else u in
